@@ -1,0 +1,19 @@
+//go:build verif
+
+// Contracts for the deductive verifier in /verif (govc). This file contains no code: with the
+// build tag off it is not part of the package, with it on it adds nothing to the build.
+package types
+
+//@ import big "math/big"
+//@ import sdk "github.com/cosmos/cosmos-sdk/types"
+//@ import ethtypes "github.com/ethereum/go-ethereum/core/types"
+//@ import cmtbytes "github.com/cometbft/cometbft/libs/bytes"
+
+// events.go — the tx_receipt event is a pure rendering of the receipt object it is given (C13); it fails only when the
+// receipt cannot be marshalled, and never touches state.
+//@ func GetSdkEventForReceipt(receipt *ethtypes.Receipt, effectiveGasPrice *big.Int, vmErr error, cometTxHash *cmtbytes.HexBytes) (ev sdk.Event, err error)
+//@   requires receipt != nil && effectiveGasPrice != nil && receipt.BlockNumber != nil
+//@   requires forall i int :: (0 <= i && i < len(receipt.Logs)) ==> receipt.Logs[i] != nil
+//@   modifies nothing
+//@   ensures[C13.event_needs_marshalled_receipt] receipt.Type <= 2 ==> err == nil
+//@   panics[C13.event_never_panics,C20.event_never_panics] never
